@@ -23,6 +23,8 @@ add A B DST | extend A B DST | append A VEC DST | tosparse A DST | todense A DST
                                           -> ok KIND NPIX NMODES ROWS | err value
 nnz NAME                                  -> ok N   (stored entries; dense: npix*nmodes)
 lstsq NAME VECTOR                         -> ok VECTOR | err rank
+sliceidx N A B C                          -> ok START STOP STEP [positions] | err value   (`sliceIndices`, `sliceIdx`; `-` = None)
+seginfl NPIX COLS XS YS                   -> ok ROWS   (`segInfl`: segments as rows of COLS, grid coordinates XS YS)
 mirror new NPIX NMODES ROWS | assign V | alias H | edit H I X | flatten | random V
        | setif NPIX NMODES ROWS | read    -> ok … (read: ok VECTOR hit|miss; the K-th read, K = 0,1,…, hands out array K)
        | sedit K I X                      -> ok      (in-place edit of handed-out surface array K)
@@ -320,6 +322,23 @@ def step (st : St) : List String → St × String
         if certified CRat.conj b x y then (st, "ok " ++ showVec x)
         else (st, "err internal")
     | _, _ => (st, "bad-op")
+  | ["sliceidx", n, a, b, c] =>
+    -- `slice(A, B, C).indices(N)` and the positions it selects (`-` = None)
+    match parseNat? n, parseOptInt? a, parseOptInt? b, parseOptInt? c with
+    | some n, some a, some b, some c =>
+      match sliceIndices n a b c, sliceIdx n a b c with
+      | some t, some l => (st, s!"ok {t.1} {t.2.1} {t.2.2} {showList (fun (x : Nat) => toString x) l}")
+      | none, none => (st, "err value")
+      | _, _ => (st, "err internal")
+    | _, _, _, _ => (st, "bad-op")
+  | ["seginfl", npix, cols, xs, ys] =>
+    -- the influence functions `SegmentedDeformableMirror` builds from its segments (`segInfl`)
+    match parseNat? npix, parseMat? cols, parseVec? xs, parseVec? ys with
+    | some n, some cols, some xs, some ys =>
+      if xs.length == n && ys.length == n && cols.all (·.length == n) then
+        (st, "ok " ++ showMat (segInfl cols xs ys))
+      else (st, "bad-op")
+    | _, _, _, _ => (st, "bad-op")
   | "mirror" :: rest => mirrorStep st rest
   | _ => (st, "bad-op")
 
